@@ -1,5 +1,49 @@
 import Drivers.Common
-/-! Stub: replaced by the driver of the `Conc` model. -/
+import PsiModel.Conc
+/-!
+Driver of the `Conc` model (C15): the harness streams the lock-footprint table it extracted from
+buffer.py and asks the *Lean* `atomicByName` / `footprint` about every method (compared with the
+Python mirror, and used to name the non-atomic operations when the proof no longer builds).
+
+    names <a,b,c>
+    method <tokens>      tokens: A (acq) R (rel) r<f> w<f> c<m>, comma separated; `-` = empty
+    atomic <name>        → true | false
+    footprint <name>     → string over a (acq) r (rel) o (access) b (bad) | none
+-/
 namespace Psi.Driver.Conc
-def main : IO Unit := pure ()
+open Psi.Conc
+
+structure St where
+  names : List String
+  methods : List (List Tok)
+
+def parseTok? (s : String) : Option Tok :=
+  if s == "A" then some .acq
+  else if s == "R" then some .rel
+  else
+    let n := (s.drop 1).toString.toNat?
+    match s.take 1 |>.toString, n with
+    | "r", some f => some (.read f)
+    | "w", some f => some (.write f)
+    | "c", some m => some (.call m)
+    | _, _ => none
+
+def showK : K → Char
+  | .acq => 'a' | .rel => 'r' | .other => 'o' | .bad => 'b'
+
+def step (st : St) (ws : List String) : St × String :=
+  match ws with
+  | ["names", l] => ({ st with names := commaList l }, "ok")
+  | ["method", l] =>
+    match (commaList l).mapM parseTok? with
+    | some toks => ({ st with methods := st.methods ++ [toks] }, "ok")
+    | none => (st, "bad-op")
+  | ["atomic", n] => (st, toString (atomicByName st.names st.methods n))
+  | ["footprint", n] =>
+    match indexOf n st.names 0 with
+    | some m => (st, let s := String.ofList ((footprint st.methods m).map showK); if s.isEmpty then "-" else s)
+    | none => (st, "none")
+  | _ => (st, "bad-op")
+
+def main : IO Unit := Psi.Driver.run { names := [], methods := [] } step
 end Psi.Driver.Conc
